@@ -40,6 +40,8 @@ class TableLM(MixableSequentialLanguageModel):
             return prev
         N = hist.size(1)
         elem = prev.get("elem", torch.zeros(N, dtype=torch.long))
+        if elem.numel() == 1 and N != 1:
+            elem = elem.reshape(1).expand(N)  # an unbatched initial state conditions every sample alike
         return {
             "elem": elem,
             "code": torch.zeros(N, dtype=torch.long),
